@@ -411,7 +411,7 @@ theorem strict_implies_permissive_strict (s : Schema) (env : RequestEnv) (q : Re
   sipG hWF henv e hf caps _ h
 
 /-- the instance of the full statement `strict_implies_permissive` that this gives -/
-theorem strict_implies_permissive_strict' (s : Schema) (env : RequestEnv) (q : Request)
+theorem strict_implies_permissive_strict_sub (s : Schema) (env : RequestEnv) (q : Request)
     (hWF : SchemaWF3 s) (henv : EnvMatches s env q) (e : Expr) (hf : InFragment2 env e = true)
     (caps : Capabilities) (τ : CedarType) (c : Capabilities) (h : typeOf .strict s env e caps = .ok (τ, c)) :
     ∃ τ' c', typeOf .permissive s env e caps = .ok (τ', c') ∧ isSubtype .permissive τ τ' = true := by
